@@ -408,4 +408,40 @@ theorem xpath10_string_exponent_fails :
     trigF06s ieee (.str ['1', 'e', '3']) = true ∧ pyNumber ieee ['1', 'e', '3'] = .fin 1000 ∧
     number10 ieee ['1', 'e', '3'] = .nan := v10_string_exponent_fails
 
+/-! ## Call sites evaluated more than once -/
+
+/-- a call site evaluated repeatedly returns the list of the single-call results, in order: the result of
+the k-th evaluation depends on the k-th arguments only (what the correspondence check compares the
+implementation's `for`/variables/function-item forms with, element-wise) -/
+theorem call_site_reuse_eq_map (R : Rounding) (v : Ver) (op : BinOp) (args : List (Num × Num)) :
+    evalCallSiteBin R v op args = args.map (fun p => modelBin R v op p.1 p.2) := by
+  induction args with
+  | nil => rfl
+  | cons p rest ih => cases p; simp [evalCallSiteBin, ih]
+
+theorem call_site_reuse_eq_map_unary (R : Rounding) (v : Ver) (args : List (UnOp × Num)) :
+    evalCallSiteUn R v args = args.map (fun p => modelUn R v p.1 p.2) := by
+  induction args with
+  | nil => rfl
+  | cons p rest ih => cases p; simp [evalCallSiteUn, ih]
+
+/-- in particular `for $p in ps return round(x, $p)` is the list of `round(x, p)`: the precision of an
+earlier evaluation is never reused -/
+theorem round_call_site_reuse (R : Rounding) (x : Num) (ps : List Int) :
+    evalCallSiteUn R .v31 (ps.map fun p => (UnOp.round p, x)) = ps.map (fun p => fnRound R x p) := by
+  rw [call_site_reuse_eq_map_unary, List.map_map]
+  apply List.map_congr_left
+  intro p _
+  simp [modelUn]
+
+/-- `for $a in as, $b in bs return $a op $b` has |as|·|bs| results -/
+theorem for_pairs_length (R : Rounding) (v : Ver) (op : BinOp) (as bs : List Num) :
+    (evalCallSiteBin R v op (forPairs as bs)).length = as.length * bs.length := by
+  rw [call_site_reuse_eq_map, List.length_map]
+  induction as with
+  | nil => simp [forPairs]
+  | cons a rest ih =>
+    simp only [forPairs, List.flatMap_cons, List.length_append, List.length_map, List.length_cons] at ih ⊢
+    rw [ih]; rw [Nat.add_mul, Nat.one_mul, Nat.add_comm]
+
 end EPV.C06
